@@ -55,3 +55,47 @@ Proof.
   split; [|vm_compute; reflexivity].
   repeat constructor; cbn; try lia; intuition discriminate.
 Qed.
+
+(* ---- commits and tags: exactly the header values, nothing from continuation lines or the message ---- *)
+From GS Require Import HeaderProofs.
+
+(* hs: header lines (key, value); a line with an empty key is a continuation line of a folded header.
+   ser_object hs msg = the lines, a blank line, an arbitrary message. *)
+Theorem C16_commit_headers : forall hs msg tv t,
+  hs <> [] -> Forall ok_line hs ->
+  values_of (str "tree") hs = [tv] -> new_oid tv = Some t ->
+  Forall (fun v => new_oid v <> None) (values_of (str "parent") hs) ->
+  parse_commit (ser_object hs msg) =
+    Ok (mk_commit (sat32b (blen (ser_object hs msg))) (map oid_of (values_of (str "parent") hs)) t).
+Proof. exact commit_headers. Qed.
+Print Assumptions C16_commit_headers.
+
+Theorem C16_commit_without_tree_rejected : forall hs msg,
+  hs <> [] -> Forall ok_line hs -> values_of (str "tree") hs = [] -> parse_commit (ser_object hs msg) = Err.
+Proof. exact commit_without_tree_rejected. Qed.
+Print Assumptions C16_commit_without_tree_rejected.
+
+Theorem C16_tag_headers : forall hs msg ov o ty,
+  hs <> [] -> Forall ok_line hs ->
+  values_of (str "object") hs = [ov] -> new_oid ov = Some o -> values_of (str "type") hs = [ty] ->
+  parse_tag (ser_object hs msg) = Ok (mk_tag (sat32b (blen (ser_object hs msg))) o ty).
+Proof. exact tag_headers. Qed.
+Print Assumptions C16_tag_headers.
+
+(* the same without blank line and message (the header block is the whole object) *)
+Theorem C16_header_block_nomsg : forall hs, Forall ok_line hs -> hs <> [] ->
+  header_block (ser_headers hs) = Ok (ser_headers hs).
+Proof. exact header_block_ser_nomsg. Qed.
+Print Assumptions C16_header_block_nomsg.
+
+(* non-vacuity: a signed merge commit whose signature block and message imitate parent / tree headers *)
+Example C16_headers_example :
+  let hs := [(str "tree", ex_oid 97); (str "parent", ex_oid 98); (str "parent", ex_oid 99);
+             (str "author", str "A U Thor <a@example.com> 1 +0000");
+             (str "gpgsig", str "-----BEGIN PGP SIGNATURE-----"); ([], []); ([], str "parent " ++ ex_oid 100);
+             ([], str "tree " ++ ex_oid 101); ([], str "-----END PGP SIGNATURE-----")] in
+  let msg := str "subject" ++ [LF; LF] ++ str "parent " ++ ex_oid 102 ++ [LF] in
+  Forall ok_line hs /\
+  parse_commit (ser_object hs msg) =
+    Ok (mk_commit (blen (ser_object hs msg)) [oid_of (ex_oid 98); oid_of (ex_oid 99)] (oid_of (ex_oid 97))).
+Proof. exact commit_headers_example. Qed.
